@@ -82,6 +82,14 @@ int main() {
                         : cmd == "comm" ? A.getCommutator(B) : A.getAntiCommutator(B);
             env[r] = R;
             std::cout << "o " << line << " => " << polystr(R) << "\n";
+        } else if (cmd == "imul" || cmd == "iadd" || cmd == "isub") {
+            // compound assignment R = A; R op= B  -- with B named like R the right-hand side IS the left-hand side (R op= R)
+            std::string r, a, b; is >> r >> a >> b;
+            Operator R = env[a];
+            const Operator& B = (b == r) ? R : env[b];
+            if (cmd == "imul") R *= B; else if (cmd == "iadd") R += B; else R -= B;
+            env[r] = R;
+            std::cout << "o " << line << " => " << polystr(R) << "\n";
         } else if (cmd == "smul" || cmd == "addc") {
             std::string r, a; is >> r; MelemType c = hx::readMelem(is); is >> a;
             Operator R = cmd == "smul" ? env[a] * c : env[a] + c;
